@@ -214,3 +214,22 @@ fn will_qos_and_retain_bits_are_zero_without_a_will() {
     pos += 1;
     assert_eq!(b[pos] & 0x3c, 0, "Will Flag 0 requires Will QoS 0 and Will Retain 0 [MQTT-3.1.2-11, -13], flags = {:#04x}", b[pos]);
 }
+
+#[test]
+fn password_without_user_name_sets_the_password_flag() {
+    // legal in MQTT 5 (3.1.2.9): e.g. token authentication
+    let w = connect_bytes(ConnectOpts::new().client_identifier("c").password(b"tok"));
+    let f = frames(&w);
+    let b = &f[0];
+    let mut pos = 1;
+    rd_vbi(b, &mut pos);
+    rd_bin(b, &mut pos);
+    pos += 1;
+    assert_eq!(b[pos], 0x40, "password flag only");
+    pos += 1;
+    rd_u16(b, &mut pos);
+    assert_eq!(rd_props(b, &mut pos), vec![]);
+    assert_eq!(rd_bin(b, &mut pos), b"c");
+    assert_eq!(rd_bin(b, &mut pos), b"tok");
+    assert_eq!(pos, b.len());
+}
